@@ -154,6 +154,12 @@ def main(sc_path, out_path):
                     if held and len(set(ready)) == W and idle:
                         time.sleep(0.5)      # the idle worker is now blocked in cmd.get(), holding its read lock
                         victim = idle[0]
+                        # act right after a timeout of the parent's get, so that the held game arrives
+                        # before the next one (the parent inspects exit codes only on a timeout)
+                        n0 = sum(1 for t in list(trace) if t[0] == "timeout")
+                        t_w = time.monotonic() + 10
+                        while time.monotonic() < t_w and sum(1 for t in list(trace) if t[0] == "timeout") == n0:
+                            time.sleep(0.002)
                         fac.log_as(victim, "extkill", reading=True, code=-9)
                         os.kill(engine.processes[victim].pid, signal.SIGKILL)
                         engine.processes[victim].join(5)
